@@ -50,7 +50,7 @@ func (c17) Components() map[string][]string {
 	}
 }
 func (c17) ProbeNames() []string {
-	return []string{"cache-0", "cache-1", "cache-small", "cache-default", "resize-in-flight", "lock-wait", "pct", "uniform"}
+	return []string{"cache-0", "cache-1", "cache-small", "cache-default", "resize-in-flight", "lock-wait", "pct", "uniform", "bursts"}
 }
 func (c17) Budget(tier string) (int, int, int) {
 	if tier == "thorough" {
@@ -74,7 +74,7 @@ func (c17) Gen(r *core.Rng, tier string, idx int) *core.Trace {
 	t.Cfg["tasks"] = int64(nt)
 	t.Cfg["cache"] = core.PickOf[int64](r, 0, 1, 1, 2, 4, -1)
 	t.Cfg["sqcomp"] = int64(r.Intn(4))
-	t.Cfg["mode"] = int64(r.Intn(2))
+	t.Cfg["mode"] = int64(r.Intn(3))
 	t.Cfg["bs"] = core.PickOf[int64](r, 4096, 4096, 8192)
 	t.Cfg["schedseed"] = int64(r.U64() >> 2)
 	perTask := 1 + r.Intn(6)
@@ -208,10 +208,13 @@ func (p c17) Exec(t *core.Trace) *core.Result {
 	if cache >= 0 {
 		fsys.SetCacheSize(int(cache * bs))
 	}
-	mode := int(t.I("mode") % 2)
-	if mode == 1 {
+	mode := int(t.I("mode") % 3)
+	switch mode {
+	case 1:
 		res.Probe("pct")
-	} else {
+	case 2:
+		res.Probe("bursts")
+	default:
 		res.Probe("uniform")
 	}
 	// per-task operation lists
